@@ -73,11 +73,33 @@ def is_rollback_payload_field(x):
     return None
 
 
+def r1_rollback_always_replays(ck, ai, rule="C04-R1"):
+    """The restores of R1 live in apply_internal.  They only happen if every undo goes through it: each function that builds
+    ApplyMode::Rollback hands it to apply_internal on every path that returns (no shortcut for 'nothing was applied' - a patch whose
+    hunks were all rejected may still have changed the mode or the existence of the file)."""
+    prog = ck.prog
+    ctors, aborting = discover_rollback_api(ck)
+    n = 0
+    for fid in sorted(ctors):
+        fn = prog.fns[fid]
+        calls = {bb for bb, t in fn.calls() if (callee_of(t).get("rpath") or "") == ai.id and not fn.blocks[bb]["cleanup"]}
+        n += 1
+        if not ck.require(bool(calls), rule, "%s undoes through apply_internal" % fn.name, "%s builds ApplyMode::Rollback but never calls apply_internal" % fid, fn.where()):
+            continue
+        skipping = [b for b in cfg.exits(fn) if b in cfg.reachable(fn, 0, blocked=calls)]
+        ck.require(not skipping, rule, "every undo through %s replays the patch in rollback mode" % fn.name,
+                   "%s can return without calling apply_internal: on that path neither the mode nor the existence of the file is restored from "
+                   "the report (only the lines would have been)" % fid, fn.where(fn.blocks[skipping[0]]["term"]) if skipping else fn.where(),
+                   ok_detail="no return without the rollback-mode call of apply_internal")
+    ck.floor(rule, "functions that start an undo", n, 1)
+
+
 def r1_fields_restored(ck, rule="C04-R1"):
     prog = ck.prog
     ai, cl = apply_closure(ck)
     if ai is None:
         return
+    r1_rollback_always_replays(ck, ai, rule)
     ck.count("functions in the apply_internal closure", len(cl))
     written = {}
     for fid in sorted(cl):
